@@ -96,11 +96,21 @@ func (lm *ListenerMux) Start() {
 					}
 					continue
 				}
+				if lm.shutdown {
+					// accepted while Stop was closing the listener: nobody would take it from the channel.
+					_ = c.Close()
+					return
+				}
 				if atomic.AddInt32(&lm.onlineA, 1) <= lm.maxOnlineA {
 					listenerA.chEvent <- event{err: nil, conn: c}
 				} else {
 					atomic.AddInt32(&lm.onlineA, -1)
 					listenerB.chEvent <- event{err: nil, conn: c}
+				}
+				if lm.shutdown {
+					// Stop ran in between: the ChanListeners may already have been drained.
+					listenerA.drain()
+					listenerB.drain()
 				}
 			}
 		}(k, v.a, v.b)
@@ -146,7 +156,24 @@ func (l *ChanListener) Accept() (net.Conn, error) {
 	case e := <-l.chEvent:
 		return e.conn, e.err
 	case <-l.chClose:
+		l.drain()
 		return nil, net.ErrClosed
+	}
+}
+
+// drain closes the connections that were dispatched to the listener but not accepted from it.
+//
+//go:norace
+func (l *ChanListener) drain() {
+	for {
+		select {
+		case e := <-l.chEvent:
+			if e.conn != nil {
+				_ = e.conn.Close()
+			}
+		default:
+			return
+		}
 	}
 }
 
